@@ -400,6 +400,7 @@ var c18Wellformed = []string{
 	`script ( local ) S { switch ( av ( 1 , 2 ) ) { case 1 : cmd } poryswitch ( K ) { A { cmd } B : cmd2 _ : end } cmd ( format ( "a b c" , 100 ) , ascii"x" ) return }`,
 	`const K = 1 + 2 const J = K text ( global ) T { poryswitch ( K ) { A : "a$" B { braille"b" } _ : format ( "c d" , numLines = 3 , maxLineLength = 50 ) } } raw ` + "`x y`",
 	`movement M { walk_up * 3 poryswitch ( K ) { A : walk_left _ { walk_right * 2 step_end } } face_down } mart ( global ) Z { ITEM_A K poryswitch ( K ) { A { ITEM_B } _ : ITEM_NONE } }`,
+	`script S { cmd ( 1 , moves ( poryswitch ( K ) { A : walk_up B { walk_down * 2 } } ) ) } movement M { poryswitch ( K ) { A : walk_up } } mart Z { poryswitch ( K ) { A { ITEM_B } } } text T { poryswitch ( K ) { A : "a$" } }`,
 	`mapscripts M { T1 : L T2 { cmd if ( flag ( A ) ) { end } } T3 [ VAR_A , 1 : L2 VAR_B , K { cmd ( "t$" ) } ] }`,
 }
 
